@@ -161,8 +161,7 @@ func (parties SocketRemoteParties) Send(msgType uint8, topic []byte, msg []byte,
 		}
 
 		onTimeout := func() {
-			p.reportErr(fmt.Sprintf("timeout sending to %d", dst))
-			panic("bla")
+			p.reportErr(fmt.Sprintf("timeout sending to %d, message dropped", dst))
 		}
 
 		p.msgs.enqueue(&msgToSend, onTimeout, time.Second*10)
